@@ -4,6 +4,7 @@ package main
 // account.AccountDB. The same lines are fed to the Lean driver drv_c04.
 
 import (
+	"bytes"
 	"fmt"
 	"math/big"
 	"strconv"
@@ -14,6 +15,7 @@ import (
 	"com.tuntun.rangers/node/src/middleware/types"
 	"com.tuntun.rangers/node/src/storage/account"
 	"com.tuntun.rangers/node/src/utility"
+	"golang.org/x/crypto/sha3"
 	"verif/harness/hx"
 )
 
@@ -27,6 +29,60 @@ type World struct {
 	contentOf map[string]string
 	RootClash []string
 	LastRoot  string
+	// retention: byte slices the API returned, with a private copy taken at return time; they are
+	// re-checked after later calls (a returned slice must not alias a buffer the package reuses)
+	kept     []keptSlice
+	Retained int
+	Alias    []string
+	// independent reference values disagreeing with the code under test
+	RefClash []string
+	// when set, `new` opens its AccountDB over this shared database instead of a private one
+	sharedTdb account.AccountDatabase
+}
+
+type keptSlice struct {
+	what string
+	live []byte
+	copy []byte
+}
+
+func (w *World) keep(what string, b []byte) []byte {
+	if len(b) > 0 {
+		if len(w.kept) >= 64 {
+			w.kept = w.kept[1:]
+		}
+		w.kept = append(w.kept, keptSlice{what, b, append([]byte{}, b...)})
+	}
+	return b
+}
+
+func (w *World) checkKept() {
+	for _, k := range w.kept {
+		w.Retained++
+		if !bytes.Equal(k.live, k.copy) {
+			w.Alias = append(w.Alias, k.what+": returned slice changed from "+hx.Hex(k.copy)+" to "+hx.Hex(k.live))
+		}
+	}
+}
+
+// refERC20Key: keccak256(pad32(addr) || pad32(position)) computed with x/crypto directly (independent of
+// AccountDB.GetERC20Key, which goes through utility.UInt64ToByte and common.KeccakState).
+func refERC20Key(a common.Address, pos uint64) []byte {
+	var data [64]byte
+	copy(data[12:32], a[:])
+	for i := 0; i < 8; i++ {
+		data[63-i] = byte(pos >> (8 * uint(i)))
+	}
+	h := sha3.NewLegacyKeccak256()
+	h.Write(data[:])
+	return h.Sum(nil)
+}
+
+// refKeccak: code hash reference via x/crypto (SetCode uses eth_crypto.Keccak256Hash).
+func refKeccak(b []byte) []byte {
+	h := sha3.NewLegacyKeccak256()
+	h.Write(b)
+	return h.Sum(nil)
 }
 
 func NewWorld() *World {
@@ -107,6 +163,7 @@ func (w *World) noteRoot(root common.Hash) string {
 
 // Exec runs one op line against the implementation and returns its answer.
 func (w *World) Exec(line string) string {
+	w.checkKept()
 	f := strings.Fields(line)
 	if len(f) == 0 {
 		return "bad-op"
@@ -124,9 +181,15 @@ func (w *World) Exec(line string) string {
 		if tok != account.VerifTokenContract() || rip != common.StringToAddress("0000000000000000000000000000000000000003") {
 			return "bad-op" // the line must describe this process's configuration
 		}
-		setP002(f[3] == "1")
-		m, _ := db.NewMemDatabase()
-		w.tdb = account.NewDatabase(m)
+		if w.sharedTdb == nil { // concurrent worlds (mode=conc) all run with the flag already on
+			setP002(f[3] == "1")
+		}
+		if w.sharedTdb != nil {
+			w.tdb = w.sharedTdb
+		} else {
+			m, _ := db.NewMemDatabase()
+			w.tdb = account.NewDatabase(m)
+		}
 		adb, err := account.NewAccountDB(common.Hash{}, w.tdb)
 		if err != nil {
 			return "ERR"
@@ -163,6 +226,9 @@ func (w *World) Exec(line string) string {
 		}
 		if hx.Hex(s.GetERC20Key(a, pos)) != hx.Hex(k) {
 			return bad
+		}
+		if ref := refERC20Key(a, pos); hx.Hex(ref) != hx.Hex(k) {
+			w.RefClash = append(w.RefClash, "GetERC20Key("+f[1]+") = "+hx.Hex(k)+", reference keccak = "+hx.Hex(ref))
 		}
 		w.keys[a] = k
 		return "ok"
@@ -329,7 +395,7 @@ func (w *World) Exec(line string) string {
 		if !ok1 || !ok2 || len(c) == 0 {
 			return bad
 		}
-		if hx.Hex(keccak(c)) != hx.Hex(h) {
+		if hx.Hex(refKeccak(c)) != hx.Hex(h) {
 			return bad
 		}
 		s.SetCode(a, c)
@@ -495,7 +561,7 @@ func (w *World) Exec(line string) string {
 		}
 		switch f[0] {
 		case "getdata":
-			return hx.Hex(s.GetData(a, k))
+			return hx.Hex(w.keep("GetData "+f[1]+" "+f[2], s.GetData(a, k)))
 		case "getstate":
 			if len(k) != 32 {
 				return bad
@@ -510,7 +576,7 @@ func (w *World) Exec(line string) string {
 	case "suicided":
 		return b2s(s.HasSuicided(a))
 	case "code":
-		return hx.Hex(s.GetCode(a))
+		return hx.Hex(w.keep("GetCode "+f[1], s.GetCode(a)))
 	case "codesize":
 		return strconv.Itoa(s.GetCodeSize(a))
 	case "codehash":
